@@ -191,3 +191,22 @@ func Harness_C20_adapter_password() {
 	n := verif_IntRange(0, verif_Bound("req"))
 	c20AdapterRun(append([]byte{5, 1, 2}, verif_Bytes(n)...), true)
 }
+
+// Greetings with many methods (NMETHODS up to the maximum of 255), the acceptable method first,
+// last or in the middle, followed by a valid CONNECT request: sizes the few-byte harnesses cannot
+// reach. Three method bytes and the request's address and port are symbolic.
+func Harness_C20_adapter_many_methods() {
+	nm := []int{1, 8, 9, 16, 17, 254, 255}[verif_Choose(7)]
+	pos := []int{0, nm / 2, nm - 1}[verif_Choose(3)]
+	s := []byte{5, byte(nm)}
+	for i := 0; i < nm; i++ {
+		s = append(s, 0x80)
+	}
+	s[2], s[2+nm/2], s[2+nm-1] = verif_Byte(), verif_Byte(), verif_Byte()
+	verif_Assume(s[2] != 0 && s[2+nm/2] != 0 && s[2+nm-1] != 0)
+	s[2+pos] = 0 // "no authentication required"
+	s = append(s, 5, 1, 0, 1)
+	s = append(s, verif_Bytes(4)...)
+	s = append(s, verif_Bytes(2)...)
+	c20AdapterRun(s, false)
+}
